@@ -954,6 +954,8 @@ pub fn relator_representative(fw: &FreeWord) -> (best: FreeWord)
         // ... and no candidate is smaller: it is the least element of the candidate set
         forall|k: int| 0 <= k < fw@.len() ==> !lt(#[trigger] rot(fw@, k), best@) && !lt(inv_w(rot(fw@, k)), best@),
         !lt(fw@, best@),
+        // in one predicate (the form lemma_representative_invariant consumes: the representative depends on the candidate SET only)
+        fw@.len() > 0 ==> least_cand(fw@, best@),
 {
     proof { axiom_vec_len_isize(&fw.w); }
     if fw.w.len() == 0 {
@@ -1004,6 +1006,13 @@ pub fn relator_representative(fw: &FreeWord) -> (best: FreeWord)
                 }
                 lemma_order(fw@, best@, b0);
                 if best@ != b0 { assert(rot(fw@, i as int) == best@ || inv_w(rot(fw@, i as int)) == best@); }
+            }
+        }
+        proof {
+            use_type_invariant(fw);
+            if best@ == fw@ { assert(fw@.skip(0) + fw@.take(0) =~= fw@); lemma_reduce_id(fw@); assert(rot(fw@, 0) == best@); }
+            assert forall|c: Seq<isize>| #[trigger] is_perm(fw@, c) implies !lt(c, best@) by {
+                let k = choose|k: int| 0 <= k < fw@.len() && (#[trigger] rot(fw@, k) == c || inv_w(rot(fw@, k)) == c);
             }
         }
         best
@@ -1099,9 +1108,188 @@ impl Index<usize> for FreeWord {
 }
 
 // =====================================================================================================
+// C10: "the relator representative is identical for every rotation and inversion of a cyclically reduced word"
+// =====================================================================================================
+pub open spec fn raw_rot(s: Seq<isize>, k: int) -> Seq<isize> { s.skip(k) + s.take(k) }
+pub open spec fn cyc_reduced(s: Seq<isize>) -> bool { reduced(s) && s.len() > 0 && !neg_eq(s[0], s.last()) }
+// b is the least candidate of fw (what relator_representative returns)
+pub open spec fn least_cand(fw: Seq<isize>, b: Seq<isize>) -> bool {
+    is_perm(fw, b) && forall|c: Seq<isize>| #[trigger] is_perm(fw, c) ==> !lt(c, b)
+}
+
+proof fn lemma_raw_rot_index(s: Seq<isize>, k: int, j: int)
+    requires 0 <= k <= s.len(), 0 <= j < s.len()
+    ensures raw_rot(s, k).len() == s.len(), raw_rot(s, k)[j] == (if j < s.len() - k { s[k + j] } else { s[j - (s.len() - k)] })
+{}
+
+proof fn lemma_raw_rot_reduced(s: Seq<isize>, k: int)
+    requires cyc_reduced(s), 0 <= k < s.len()
+    ensures cyc_reduced(raw_rot(s, k)), rot(s, k) == raw_rot(s, k)
+{
+    let n = s.len() as int;
+    let r = raw_rot(s, k);
+    assert forall|j: int| 0 <= j < r.len() implies #[trigger] r[j] != 0 && r[j] > isize::MIN by { lemma_raw_rot_index(s, k, j); }
+    assert forall|j: int| 0 <= j < r.len() - 1 implies !neg_eq(#[trigger] r[j + 1], r[j]) by {
+        lemma_raw_rot_index(s, k, j); lemma_raw_rot_index(s, k, j + 1);
+        if j + 1 < n - k { assert(!neg_eq(s[(k + j) + 1], s[k + j])); }
+        else if j < n - k { assert(j == n - k - 1); assert(s.last() == s[n - 1]); }
+        else { assert(!neg_eq(s[(j - (n - k)) + 1], s[j - (n - k)])); }
+    }
+    lemma_raw_rot_index(s, k, 0); lemma_raw_rot_index(s, k, n - 1);
+    assert(r.last() == r[n - 1]);
+    if k == 0 { assert(s.last() == s[n - 1]); } else { assert(!neg_eq(s[(k - 1) + 1], s[k - 1])); }
+    lemma_reduce_id(r);
+}
+
+proof fn lemma_rot_rot(s: Seq<isize>, k: int, i: int)
+    requires 0 <= k < s.len(), 0 <= i < s.len()
+    ensures raw_rot(raw_rot(s, k), i) == raw_rot(s, if k + i < s.len() { k + i } else { k + i - s.len() })
+{
+    let n = s.len() as int;
+    let m = if k + i < n { k + i } else { k + i - n };
+    let a = raw_rot(raw_rot(s, k), i);
+    let b = raw_rot(s, m);
+    assert(a.len() == b.len());
+    assert forall|j: int| 0 <= j < n implies a[j] == b[j] by {
+        lemma_raw_rot_index(raw_rot(s, k), i, j);
+        lemma_raw_rot_index(s, m, j);
+        if j < n - i { lemma_raw_rot_index(s, k, i + j); } else { lemma_raw_rot_index(s, k, j - (n - i)); }
+    }
+    assert(a =~= b);
+}
+
+proof fn lemma_neg_rev_rot(s: Seq<isize>, k: int)
+    requires 0 <= k < s.len()
+    ensures neg_rev(raw_rot(s, k)) == raw_rot(neg_rev(s), if k == 0 { 0 } else { s.len() - k })
+{
+    let n = s.len() as int;
+    let m = if k == 0 { 0 } else { n - k };
+    let a = neg_rev(raw_rot(s, k));
+    let b = raw_rot(neg_rev(s), m);
+    assert(a.len() == b.len());
+    assert forall|j: int| 0 <= j < n implies a[j] == b[j] by {
+        lemma_raw_rot_index(s, k, n - 1 - j);
+        lemma_raw_rot_index(neg_rev(s), m, j);
+    }
+    assert(a =~= b);
+}
+
+proof fn lemma_neg_rev_cyc(s: Seq<isize>)
+    requires cyc_reduced(s)
+    ensures cyc_reduced(neg_rev(s)), inv_w(s) == neg_rev(s), neg_rev(neg_rev(s)) == s
+{
+    let n = s.len() as int;
+    let r = neg_rev(s);
+    assert forall|j: int| 0 <= j < r.len() implies #[trigger] r[j] != 0 && r[j] > isize::MIN by { assert(s[n - 1 - j] != 0 && s[n - 1 - j] > isize::MIN); }
+    assert forall|j: int| 0 <= j < r.len() - 1 implies !neg_eq(#[trigger] r[j + 1], r[j]) by {
+        assert(!neg_eq(s[(n - 2 - j) + 1], s[n - 2 - j]));
+        assert(s[n - 2 - j] > isize::MIN && s[n - 1 - j] > isize::MIN);
+    }
+    assert(s.last() == s[n - 1]); assert(r.last() == r[n - 1]);
+    assert(s[0] > isize::MIN && s[n - 1] > isize::MIN);
+    lemma_reduce_id(r);
+    assert forall|j: int| 0 <= j < n implies neg_rev(r)[j] == s[j] by { assert(s[j] > isize::MIN); }
+    assert(neg_rev(r) =~= s);
+}
+
+// the candidate set of a rotation is the candidate set of the word
+proof fn lemma_cands_of_rotation(u: Seq<isize>, k: int, c: Seq<isize>)
+    requires cyc_reduced(u), 0 <= k < u.len()
+    ensures is_perm(rot(u, k), c) <==> is_perm(u, c)
+{
+    let n = u.len() as int;
+    let v = rot(u, k);
+    lemma_raw_rot_reduced(u, k);
+    assert(v.len() == n);
+    if is_perm(v, c) {
+        let i = choose|i: int| 0 <= i < v.len() && (#[trigger] rot(v, i) == c || inv_w(rot(v, i)) == c);
+        lemma_raw_rot_reduced(v, i);
+        lemma_rot_rot(u, k, i);
+        let m = if k + i < n { k + i } else { k + i - n };
+        lemma_raw_rot_reduced(u, m);
+        assert(rot(v, i) == rot(u, m));
+    }
+    if is_perm(u, c) {
+        let j = choose|j: int| 0 <= j < u.len() && (#[trigger] rot(u, j) == c || inv_w(rot(u, j)) == c);
+        let i = if j >= k { j - k } else { j - k + n };
+        lemma_raw_rot_reduced(v, i);
+        lemma_rot_rot(u, k, i);
+        lemma_raw_rot_reduced(u, j);
+        assert(rot(v, i) == rot(u, j));
+    }
+}
+
+// the candidate set of the inverse is the candidate set of the word
+proof fn lemma_cands_of_inverse(u: Seq<isize>, c: Seq<isize>)
+    requires cyc_reduced(u)
+    ensures is_perm(inv_w(u), c) <==> is_perm(u, c)
+{
+    let n = u.len() as int;
+    lemma_neg_rev_cyc(u);
+    let v = neg_rev(u);
+    assert(v.len() == n);
+    if is_perm(v, c) {
+        let i = choose|i: int| 0 <= i < v.len() && (#[trigger] rot(v, i) == c || inv_w(rot(v, i)) == c);
+        let m = if i == 0 { 0 } else { n - i };
+        lemma_raw_rot_reduced(v, i);
+        lemma_raw_rot_reduced(u, m);
+        lemma_neg_rev_rot(u, m);
+        lemma_neg_rev_cyc(raw_rot(u, m));
+        // rot(v, i) == neg_rev(rot(u, m)) == inv_w(rot(u, m));  inv_w(rot(v, i)) == rot(u, m)
+        assert(rot(v, i) == inv_w(rot(u, m)));
+        assert(inv_w(rot(v, i)) == rot(u, m));
+    }
+    if is_perm(u, c) {
+        let j = choose|j: int| 0 <= j < u.len() && (#[trigger] rot(u, j) == c || inv_w(rot(u, j)) == c);
+        let i = if j == 0 { 0 } else { n - j };
+        lemma_raw_rot_reduced(v, i);
+        lemma_raw_rot_reduced(u, j);
+        lemma_neg_rev_rot(u, j);
+        lemma_neg_rev_cyc(raw_rot(u, j));
+        assert(rot(v, i) == inv_w(rot(u, j)));
+        assert(inv_w(rot(v, i)) == rot(u, j));
+    }
+}
+
+// two words with the same candidate set have the same least candidate (the order is a strict total order)
+proof fn lemma_least_unique(u: Seq<isize>, v: Seq<isize>, bu: Seq<isize>, bv: Seq<isize>)
+    requires reduced(u), reduced(v), least_cand(u, bu), least_cand(v, bv), forall|c: Seq<isize>| is_perm(v, c) <==> is_perm(u, c)
+    ensures bu == bv
+{
+    let ku = choose|k: int| 0 <= k < u.len() && (#[trigger] rot(u, k) == bu || inv_w(rot(u, k)) == bu);
+    let kv = choose|k: int| 0 <= k < v.len() && (#[trigger] rot(v, k) == bv || inv_w(rot(v, k)) == bv);
+    lemma_rot_nz(u, ku); lemma_rot_nz(v, kv);
+    assert(is_perm(v, bu)); assert(is_perm(u, bv));
+    lemma_order(bu, bv, bu);
+}
+
+// THE C10 CLAUSE: for a cyclically reduced word, every rotation and the inverse have the same relator representative
+pub proof fn lemma_representative_invariant(u: Seq<isize>, k: int, bu: Seq<isize>, brot: Seq<isize>, binv: Seq<isize>)
+    requires cyc_reduced(u), 0 <= k < u.len(), least_cand(u, bu), least_cand(rot(u, k), brot), least_cand(inv_w(u), binv)
+    ensures brot == bu, binv == bu
+{
+    lemma_raw_rot_reduced(u, k);
+    lemma_neg_rev_cyc(u);
+    assert forall|c: Seq<isize>| is_perm(rot(u, k), c) <==> is_perm(u, c) by { lemma_cands_of_rotation(u, k, c); }
+    assert forall|c: Seq<isize>| is_perm(inv_w(u), c) <==> is_perm(u, c) by { lemma_cands_of_inverse(u, c); }
+    lemma_least_unique(u, rot(u, k), bu, brot);
+    lemma_least_unique(u, inv_w(u), bu, binv);
+}
+
+// =====================================================================================================
 // vacuity guards: each canary_* MUST FAIL (it asserts false behind a precondition / invariant that has to be
 // satisfiable); each witness_* must verify (it calls a contracted function on a literal input)
 // =====================================================================================================
+proof fn canary_cyc_reduced_is_satisfiable(s: Seq<isize>)
+    requires cyc_reduced(s), s.len() == 3, s[0] == 1, s[1] == 2, s[2] == 1
+    ensures false
+{}
+
+proof fn canary_least_cand_is_satisfiable(u: Seq<isize>, b: Seq<isize>)
+    requires cyc_reduced(u), least_cand(u, b), u.len() == 2
+    ensures false
+{}
+
 proof fn canary_reduced_is_satisfiable(s: Seq<isize>)
     requires reduced(s), s.len() == 3, s[0] == 1, s[1] == 2, s[2] == -1
     ensures false
